@@ -71,6 +71,16 @@ fn fail(rep: &mut Report, c: &Case, abi: &Abi, policy: CanonPolicy, mode: &str, 
     rep.violation(&sig, &format!("{detail} [type {} value {} policy {}]", shorten(&abi.shape_key(&c.ty), 200), val.map(|v| shorten(&v.text(), 200)).unwrap_or_default(), policy.name()), witness);
 }
 
+fn note_load_ext(rep: &mut Report, ev: &Events) {
+    if ev.load_extension_mismatches > 0 {
+        let e = rep.extra.entry("load_extension_mismatches".to_string()).or_insert_with(|| json!(0));
+        *e = json!(e.as_u64().unwrap_or(0) + ev.load_extension_mismatches);
+        if let Some(s) = &ev.load_extension_sample {
+            extra_push(rep, "load_extension_mismatch_samples", json!(s), 4);
+        }
+    }
+}
+
 fn domain_kinds(abi: &Abi, ty: &Type) -> &'static str {
     fn walk(abi: &Abi, ty: &Type, zero: &mut bool, big: &mut bool) {
         use cabi_ref::Shape;
@@ -214,6 +224,7 @@ fn check_type(rep: &mut Report, c: &Case, seed: u64, nvals: usize, only: Option<
                             .collect::<Result<Vec<CoreVal>, MErr>>()
                     });
                     rep.count_n("machine_steps", m.ev.steps);
+                    note_load_ext(rep, &m.ev);
                     let ledger = m.mem.ledger_errors.first().cloned();
                     let mem = m.mem;
                     match r {
@@ -256,6 +267,7 @@ fn check_type(rep: &mut Report, c: &Case, seed: u64, nvals: usize, only: Option<
                     m.set(p.value, MV::Iface(v.clone()));
                     let r = m.run(&p.prog.body);
                     rep.count_n("machine_steps", m.ev.steps);
+                    note_load_ext(rep, &m.ev);
                     let ledger = m.mem.ledger_errors.first().cloned();
                     let mem = m.mem;
                     match r {
@@ -313,6 +325,7 @@ fn check_type(rep: &mut Report, c: &Case, seed: u64, nvals: usize, only: Option<
                         m.set(p.addr, MV::Core(m.ptr_val(addr)));
                         let r = m.run(&p.prog.body).and_then(|_| m.get(p.result));
                         rep.count_n("machine_steps", m.ev.steps);
+                    note_load_ext(rep, &m.ev);
                         match r {
                             Err(e) => fail(rep, c, &abi, policy, mode, Some(v), &e.class, &e.detail),
                             Ok(MV::Iface(back)) if back == *v => {}
@@ -357,6 +370,7 @@ fn check_type(rep: &mut Report, c: &Case, seed: u64, nvals: usize, only: Option<
                             m.args = flat.iter().map(|c| MV::Core(*c)).collect();
                             let r = m.run(&p.body);
                             rep.count_n("machine_steps", m.ev.steps);
+                    note_load_ext(rep, &m.ev);
                             r
                         };
                         match (r, host.got) {
